@@ -289,7 +289,12 @@ F('c01-remove-argument-on-failure', {'C01': ['R01.6']}, [(PUTDIR,
   "            self.fs.remove_file(paths.trashinfo_path)\n            self.fs.remove_file(path)\n")],
   'failure handler deletes the argument')
 F('c01-copy-instead-of-move', {'C01': ['R01.6', 'R01.7']}, [('trashcli/put/fs/real_fs.py',
-  "        return fs.move(path, dest)", "        import shutil\n        shutil.copytree(path, dest)\n        shutil.rmtree(path)")],
+  """        try:
+            os.rename(path, dest)
+        except OSError as e:
+            if e.errno != errno.EXDEV:
+                raise
+            fs.move(path, dest)""", "        import shutil\n        shutil.copytree(path, dest)\n        shutil.rmtree(path)")],
   'move replaced by copy + delete')
 S('c01-handler-oserror-only', ['C01', 'C17', 'C16'], [(PUTDIR,
   "        except (IOError, OSError) as error:", "        except OSError as error:")],
@@ -301,7 +306,7 @@ S('c01-inline-move-file', ['C01', 'C18', 'C05'], [(PUTDIR,
 
 # ------------------------------------------------------------------ C04
 F('c04-no-probe', {'C04': ['R04.3']}, [(PERSISTER,
-  "            if os.path.exists(path_of_backup_copy(trashinfo_path)):\n                index += 1\n                continue\n", "")],
+  "            if os.path.lexists(path_of_backup_copy(trashinfo_path)):\n                index += 1\n                continue\n", "")],
   'payload-name-taken probe removed')
 F('c04-no-excl', {'C04': ['R04.1']}, [(FS,
   "os.O_WRONLY | os.O_CREAT | os.O_EXCL", "os.O_WRONLY | os.O_CREAT | os.O_TRUNC")],
@@ -330,3 +335,28 @@ S('c04-exist-ok', ['C04', 'C07'], [(DIRMAKER,
   "        try:\n            self.fs.makedirs(path, mode)\n        except OSError:\n            if not self.fs.isdir(path):\n                raise",
   "        import os\n        os.makedirs(path, mode, exist_ok=True)")],
   'makedirs(exist_ok=True)')
+
+
+# ------------------------------------------------------------------ regressions of the fix: commits
+REAL_FS = 'trashcli/put/fs/real_fs.py'
+F('fix1-reverted', {'C01': ['R01.1']}, [('trashcli/put/core/trashee.py',
+  "os.path.basename(path.rstrip(os.path.sep))", "os.path.basename(path)")],
+  'dot-entry guard ignores trailing slashes again')
+F('fix2-reverted', {'C01': ['R01.7']}, [(REAL_FS,
+  """        try:
+            os.rename(path, dest)
+        except OSError as e:
+            if e.errno != errno.EXDEV:
+                raise
+            fs.move(path, dest)""", "        return fs.move(path, dest)")],
+  'put moves with shutil.move again')
+F('fix2-fallback-on-any-error', {'C01': ['R01.7']}, [(REAL_FS,
+  "            if e.errno != errno.EXDEV:\n                raise\n", "")],
+  'fallback to shutil.move on every rename error')
+F('fix4-reverted', {'C04': ['R04.3']}, [(PERSISTER,
+  "if os.path.lexists(path_of_backup_copy(trashinfo_path)):", "if os.path.exists(path_of_backup_copy(trashinfo_path)):")],
+  'taken-name probe follows symlinks again')
+S('fix1-normpath-variant', ['C01'], [('trashcli/put/core/trashee.py',
+  "    basename = os.path.basename(path.rstrip(os.path.sep))\n    return (basename == \".\") or (basename == \"..\")",
+  "    basename = os.path.basename(path)\n    norm = os.path.basename(os.path.normpath(path))\n    return basename in ('.', '..') or norm in ('.', '..')")],
+  'guard rewritten with normpath plus the literal basename')
